@@ -23,7 +23,7 @@ var c20Doc = &mocrelay.NIP11{Name: "n", Description: "d <&>  ", SupportedNIPs:
 	Limitation: &mocrelay.NIP11Limitation{MaxFilters: 3},
 	Retention:  &mocrelay.NIP11Retention{Kinds: []*mocrelay.Nip11Kind{{From: 0, To: 0}, {From: 30000, To: 39999}}}}
 
-func c20Route(upgrade, accept *string, hasNip11, hasDefault bool) any {
+func c20Route(upgrade, accept *string, hasNip11, hasDefault bool, more ...string) any {
 	mux := &mocrelay.ServeMux{Relay: mocrelay.NewRelay(mocrelay.NewDefaultHandler(), nil)}
 	if hasNip11 {
 		mux.NIP11 = c20Doc
@@ -40,6 +40,14 @@ func c20Route(upgrade, accept *string, hasNip11, hasDefault bool) any {
 	if accept != nil {
 		req.Header.Set("Accept", *accept)
 		ac = *accept
+		for _, m := range more { // further Accept lines: the header's value (Header.Get) stays the first line
+			req.Header.Add("Accept", m)
+		}
+	} else {
+		more = nil
+	}
+	if more == nil {
+		more = []string{}
 	}
 	rec := httptest.NewRecorder()
 	mux.ServeHTTP(rec, req)
@@ -65,7 +73,7 @@ func c20Route(upgrade, accept *string, hasNip11, hasDefault bool) any {
 		ok := json.Valid(body) && json.Unmarshal(body, &back) == nil && docEqual(&back, c20Doc)
 		o["bodyEqualsConfig"] = ok
 	}
-	return M{"op": "route", "upgrade": up, "accept": ac, "upgradeSet": upgrade != nil, "acceptSet": accept != nil,
+	return M{"op": "route", "upgrade": up, "accept": ac, "upgradeSet": upgrade != nil, "acceptSet": accept != nil, "acceptMore": more,
 		"hasNip11": hasNip11, "hasDefault": hasDefault, "out": o}
 }
 
@@ -266,6 +274,21 @@ func init() {
 					}
 				}
 			}
+			// requests with several Accept lines
+			for _, u := range upgrades {
+				for _, a := range accepts {
+					if a == nil {
+						continue
+					}
+					for _, m := range [][]string{{"application/nostr+json"}, {"text/html"}, {"*/*", "application/nostr+json"}, {""}} {
+						for _, hn := range []bool{false, true} {
+							for _, hd := range []bool{false, true} {
+								emit(c20Route(u, a, hn, hd, m...))
+							}
+						}
+					}
+				}
+			}
 			for _, t := range kindTexts {
 				if l := c20KindParse(t); l != nil {
 					emit(l)
@@ -297,7 +320,13 @@ func init() {
 					}
 					hn, _ := l["hasNip11"].(bool)
 					hd, _ := l["hasDefault"].(bool)
-					emit(c20Route(u, a, hn, hd))
+					var more []string
+					if ml, ok := l["acceptMore"].([]any); ok {
+						for _, x := range ml {
+							more = append(more, str(x))
+						}
+					}
+					emit(c20Route(u, a, hn, hd, more...))
 				case "kind":
 					emit(c20Kind(int(jnum(l["from"])), int(jnum(l["to"]))))
 				case "kindparse":
